@@ -6,7 +6,7 @@ C09.3  every kind of import that can be re-exported by name is re-exported (no a
 C09.4  lossy name mangling: printed names of distinct types must be checked for collisions
 """
 import re
-from facts import walk, WASM
+from facts import walk, walk_inlined, WASM
 
 LEVEL = "other"
 
@@ -128,15 +128,38 @@ def run(cx, rep):
             continue
         tree = F.hir[fs[0].id]
         D = Deriv(tree)
-        ins = [n for n in walk(tree["body"]) if n["k"] == "MethodCall" and n["method"] == "insert" and any(x["k"] == "Field" and x["name"] == "imports" for x in walk(n["recv"]))]
-        rep.ob("C09.1", "%s/one-insert" % fname, len(ins) == 1, "%s must insert exactly one import binding" % fname, fs[0].loc())
-        for c in ins:
-            r = D.roots(c["args"][0])
+
+        def import_inserts(t):
+            return [n for n in walk(t["body"]) if n["k"] == "MethodCall" and n["method"] == "insert" and any(x["k"] == "Field" and x["name"] == "imports" for x in walk(n["recv"]))]
+        # (insert node, expression in THIS function the key derives from): the insert itself, or a private helper
+        # that performs it on behalf of this function with the key taken from one of its parameters
+        keyed = [(c, c["args"][0], D) for c in import_inserts(tree)]
+        for n in walk(tree["body"]):
+            if n["k"] not in ("Call", "MethodCall"):
+                continue
+            tg = F._callee_gid(fs[0].crate, (n.get("resolved") or n.get("callee")) or "")
+            h = F.fns.get(tg)
+            if h is None or tg not in F.hir or tg == fs[0].id or h.vis == "Public" or not (h.impl_self or "").startswith("swc_tools::bind_exports::ImportsVisitor"):
+                continue
+            ht = F.hir[tg]
+            HD = Deriv(ht)
+            hparams = [p.get("name") if p["k"] == "P.Binding" else None for p in ht["params"]]
+            args = ([n["recv"]] + n["args"]) if n["k"] == "MethodCall" else n["args"]
+            for c in import_inserts(ht):
+                r = HD.roots(c["args"][0]) - {"self"}
+                idx = [hparams.index(x) for x in r if x in hparams]
+                if len(idx) == 1 and len(r) == 1 and idx[0] < len(args):
+                    keyed.append((c, args[idx[0]], D))
+                else:
+                    keyed.append((c, None, D))
+        rep.ob("C09.1", "%s/one-insert" % fname, len(keyed) == 1, "%s must insert exactly one import binding (found %d)" % (fname, len(keyed)), fs[0].loc())
+        for c, kexpr, DD in keyed:
+            r = DD.roots(kexpr) if kexpr is not None else {"?"}
             rep.ob("C09.1", "%s/key" % fname, keyparam in r and not (r - {keyparam, "self"}), "imports key must derive from `%s` only (roots %s)" % (keyparam, sorted(r)), "%s:%s" % (fs[0].file, c["line"]))
             if payload:
-                st = [x for x in walk(c["args"][1]) if x["k"] == "Struct" and (x.get("def") or "").endswith("ImportReference::Named")]
+                st = [x for x in walk(tree["body"]) if x["k"] == "Struct" and (x.get("def") or "").endswith("ImportReference::Named")]
                 ok = False
-                if st:
+                if len(st) == 1:
                     e = struct_field(st[0], payload[0])
                     ok = e is not None and payload[1] in D.roots(e) and "local" not in D.roots(e)
                 rep.ob("C09.1", "%s/original-name" % fname, ok, "Named.original_name must derive from `%s`" % payload[1], fs[0].loc())
@@ -341,7 +364,7 @@ def run(cx, rep):
     else:
         carrying = {v["name"] for v in rn["variants"] if any("TypeAddress" in fl["ty"] for fl in v["fields"])}
         seen_v = set()
-        for n in walk(F.hir[tis[0].id]["body"]):
+        for n, _owner in walk_inlined(F, tis[0].id):
             pats = []
             if n["k"] == "Match":
                 pats = [a["pat"] for a in n["arms"]]
